@@ -34,6 +34,9 @@ Proof.
     + apply IH; [exact ND' | intro I; apply NI; right; exact I].
 Qed.
 
+Lemma NoDup_app_single {A} (l : list A) x : NoDup l -> ~ In x l -> NoDup (l ++ [x]).
+Proof. apply NoDup_app_single_r. Qed.
+
 Section L.
 Variables (K : Type) (keqb : K -> K -> bool).
 Hypothesis keqb_spec : forall a b, keqb a b = true <-> a = b.
